@@ -1414,6 +1414,9 @@ func (t *tctx) assignTo(lhs ast.Expr, rhsText string, define bool, k kind) []str
 			t.failf("assignment to untranslated variable %s", l.Name)
 			return nil
 		}
+		if a, ok := t.alias[o]; ok {
+			return []string{fmt.Sprintf("%s := %s", a, rhsText)}
+		}
 		return []string{fmt.Sprintf("%s := %s", lid(l.Name), rhsText)}
 	case *ast.SelectorExpr:
 		// x.f = e on a struct local
@@ -1685,6 +1688,9 @@ func (t *tctx) stmt(s ast.Stmt) []string {
 			if r, ok := t.ifMapLookup(x); ok {
 				return r
 			}
+			if r, ok := t.ifInit(x); ok {
+				return r
+			}
 			t.failf("if with init statement: %s", src(t.fset(), x.Init))
 			return nil
 		}
@@ -1939,8 +1945,49 @@ func (t *tctx) listLoop(x *ast.ForStmt) ([]string, bool) {
 	return append(out, ind(body)...), true
 }
 
+// rangeIList: `for i, v := range arr` over a []int parameter / local that the body does not assign
+func (t *tctx) rangeIList(x *ast.RangeStmt) ([]string, bool) {
+	id, ok := x.X.(*ast.Ident)
+	if !ok {
+		return nil, false
+	}
+	if assignedIn(x.Body, t.info())[t.info().Uses[id]] {
+		return nil, false
+	}
+	l, ok := t.exprIn(x.X)
+	if !ok || len(l.pre) > 0 {
+		return nil, false
+	}
+	k := t.fresh("k")
+	out := []string{fmt.Sprintf("for %s in [0:%s.length] do", k, l.text)}
+	var body []string
+	if kid, ok := x.Key.(*ast.Ident); ok && kid.Name != "_" {
+		t.locals[t.info().Defs[kid]] = kind{k: "int"}
+		body = append(body, fmt.Sprintf("let %s : Int := (%s : Int)", lid(kid.Name), k))
+	}
+	if x.Value != nil {
+		if vid, ok := x.Value.(*ast.Ident); ok && vid.Name != "_" {
+			t.locals[t.info().Defs[vid]] = kind{k: "int"}
+			body = append(body, fmt.Sprintf("let %s ← idx %s (%s : Int)", lid(vid.Name), l.text, k))
+		}
+	}
+	t.loopCtr = append(t.loopCtr, "("+k+" : Int)")
+	t.inLoop++
+	t.brk = append(t.brk, "")
+	body = append(body, t.block(x.Body.List)...)
+	t.brk = t.brk[:len(t.brk)-1]
+	t.inLoop--
+	t.loopCtr = t.loopCtr[:len(t.loopCtr)-1]
+	return append(out, ind(body)...), true
+}
+
 // rangeStmt: `for i, v := range T` over a package-level []string / []int table
 func (t *tctx) rangeStmt(x *ast.RangeStmt) []string {
+	if t.ft.kindOf(t.typeOf(x.X)).k == "ilist" && x.Tok == token.DEFINE {
+		if r, ok := t.rangeIList(x); ok {
+			return r
+		}
+	}
 	name, vv, ok := t.pkgTable(x.X)
 	if !ok || vv.kind != "list" || x.Tok != token.DEFINE {
 		t.failf("unsupported range statement over %s", src(t.fset(), x.X))
@@ -1987,6 +2034,36 @@ func (t *tctx) rangeStmt(x *ast.RangeStmt) []string {
 	t.loopCtr = t.loopCtr[:len(t.loopCtr)-1]
 	t.out.notes = append(t.out.notes, "range over "+strings.TrimPrefix(name, "Gen.Tables.")+" iterates its initial value")
 	return append(out, ind(body)...)
+}
+
+// ifInit: `if x := e; cond { A } else { B }` with one variable of a supported kind: the variable gets a fresh Lean name (its Go
+// scope is the if statement only), then the plain if is translated
+func (t *tctx) ifInit(x *ast.IfStmt) ([]string, bool) {
+	as, ok := x.Init.(*ast.AssignStmt)
+	if !ok || as.Tok != token.DEFINE || len(as.Lhs) != 1 || len(as.Rhs) != 1 {
+		return nil, false
+	}
+	id, ok := as.Lhs[0].(*ast.Ident)
+	if !ok || id.Name == "_" {
+		return nil, false
+	}
+	obj := t.info().Defs[id]
+	k := t.ft.kindOf(obj.Type())
+	if k.k == "opaque" {
+		return nil, false
+	}
+	e, ok := t.expr(as.Rhs[0])
+	if !ok {
+		return nil, false
+	}
+	name := t.fresh("v")
+	t.locals[obj] = k
+	t.alias[obj] = name
+	out := append([]string{}, e.pre...)
+	out = append(out, fmt.Sprintf("let mut %s : %s := %s", name, k.lean(), e.text))
+	plain := *x
+	plain.Init = nil
+	return append(out, t.stmt(&plain)...), true
 }
 
 // ifMapLookup: `if v, ok := M[k]; ok { A } else { B }` for a package-level map table
